@@ -63,6 +63,10 @@ func knownClassesOfR(trees []influxql.Expr, rootRegexSafe bool) []string {
 				if hasCtrl(x.Val) {
 					set[clsCtrlCharParam] = true
 				}
+			case *influxql.Call:
+				if x.Name == "" || influxql.IdentNeedsQuotes(x.Name) {
+					set[clsCallNameQuote] = true
+				}
 			case *influxql.CaseWhenExpr:
 				set[clsCaseWhen] = true
 			case *influxql.TimeLiteral:
